@@ -112,6 +112,18 @@ def write_evidence(pid, ev):
         json.dump(ev, f, indent=1, default=str)
 
 
+def _limit_memory(on):
+    """address-space cap (VERIF_MEM_CAP_GB, default 32) while the implementation executes the generated cases"""
+    try:
+        import resource
+        soft, hard = resource.getrlimit(resource.RLIMIT_AS)
+        cap = int(os.environ.get('VERIF_MEM_CAP_GB', '32')) << 30
+        if hard != resource.RLIM_INFINITY: cap = min(cap, hard)
+        resource.setrlimit(resource.RLIMIT_AS, (cap if on else hard, hard))
+    except Exception:
+        pass
+
+
 # --------------------------------------------------------------------------------------------
 def run_check(pid, tier, seed):
     t0 = time.time()
@@ -187,6 +199,7 @@ def run_check(pid, tier, seed):
     stats = {'evaluations': 0, 'mismatches': 0}
     lines, owner = [], []
     impl_out = []
+    _limit_memory(True)       # a changed tree that hoards memory must end in MemoryError (a mismatch), not in the OOM killer (no verdict)
     for ci, c in enumerate(cases):
         try:
             io = mod.impl(c)
@@ -197,6 +210,7 @@ def run_check(pid, tier, seed):
         tm_ = getattr(mod, 'to_model', None)        # optional: how a protocol line is spelled for the model (e.g. dtypes it does not distinguish)
         lines += ['reset'] + ([tm_(l) for l in c['lines']] if tm_ else c['lines'])
         owner += [None] + [ci] * len(c['lines'])
+    _limit_memory(False)
     try:
         drv = common.run_driver(lines)
     except Exception as e:
